@@ -30,6 +30,18 @@ func refName(r spec.Ref) string {
 	return s[strings.LastIndex(s, "/")+1:]
 }
 
+// respRef is the reference a response entry carries: "#/responses/x" for a named response, the
+// schema's $ref (a definition) when the entry is an inline response around a model, "" otherwise.
+func respRef(r *spec.Response) string {
+	if s := r.Ref.String(); s != "" {
+		return s
+	}
+	if r.Schema != nil {
+		return "schema:" + r.Schema.Ref.String()
+	}
+	return ""
+}
+
 func intOr(v *float64) any {
 	if v == nil {
 		return nil
@@ -149,10 +161,10 @@ func scanOne(dir, input string) obj {
 				rs := obj{}
 				if op.Responses != nil {
 					if op.Responses.Default != nil {
-						rs["default"] = refName(op.Responses.Default.Ref)
+						rs["default"] = respRef(op.Responses.Default)
 					}
 					for code, r := range op.Responses.StatusCodeResponses {
-						rs[fmt.Sprintf("r%d", code)] = refName(r.Ref)
+						rs[fmt.Sprintf("r%d", code)] = respRef(&r)
 					}
 				}
 				o["responses"] = rs
